@@ -10,7 +10,7 @@ set_option linter.unusedSimpArgs false
 set_option linter.unusedVariables false
 set_option linter.unusedSectionVars false
 
-namespace AurelVerif.C05
+namespace AurelVerif.C05L
 open AurelVerif.Gen.Core AurelVerif.Tensor AurelVerif.CoreTac AurelVerif.C08 AurelVerif.Spec.Covd
 
 variable {K : Type} [Field K]
@@ -102,4 +102,4 @@ theorem raise_commutes (e : Env K) (h : MetricOK e) (h2 : (2 : K) ≠ 0) (hp : P
   simp only [Fin.sum_univ_three, gc0, gc1, gc2] at m0 m1 m2 ⊢
   linear_combination v 0 * m0 + v 1 * m1 + v 2 * m2
 
-end AurelVerif.C05
+end AurelVerif.C05L
